@@ -68,14 +68,26 @@ def execute(code, chain, prefix):
         snap['res'] = dict(res)
         if ex_.terminal != 'finished':
             root.stop()
+            # a loop left blocked in its idle wait although the manager is no longer running (that IS the verdict, see judge)
+            # would spin there for ever: release it (harness only, after the snapshot)
+            ev = getattr(root, '_currently_handling', None)
+            if ev is not None and hasattr(ev, 'reduce_time_left'):
+                try:
+                    ev.reduce_time_left(0)
+                except Exception:  # noqa: BLE001
+                    pass
     ex.run(on_release)
     return ex, snap.get('log', list(log)), snap.get('res', dict(res))
 
 
 def judge(code, chain, ex, log, res):
     bad = []
-    if ex.errors:
-        return [('harness', '; '.join(ex.errors))]
+    errors = list(ex.errors)
+    if ex.terminal == 'blocked':
+        # a blocked loop thread may, as a consequence, not end after release: that is not a harness problem
+        errors = [e for e in errors if 'did not terminate after release' not in e]
+    if errors:
+        return [('harness', '; '.join(errors))]
     if ex.terminal == 'horizon':
         return []
     if ex.terminal == 'blocked':
